@@ -13,7 +13,7 @@ from . import _simcases as S
 
 RULE = (
     "case = one simulation with (dt_init, dt_max, window in {1,2,5,10}, multiplier in {0.1,0.25,0.5,0.9}, retries in {0,1,3,10}) "
-    "and a drive strong enough to force refusals, adaptive on or off, with/without screening and thermalisation; "
+    "and a drive strong enough to force refusals, adaptive on or off (also with dt_init == dt_max), terminal values 0 / None / non-zero, with/without screening and thermalisation; "
     "non-trivial = run in which >= 1 refusal/retry or >= 1 change of the proposed step was checked; distinct = distinct spec"
 )
 REQUIRED_COUNTERS = ["updates_checked", "attempt_sequence_checks", "proposal_rule_checks", "retries_seen", "exhaustions_seen", "proposal_changes", "recorded_dt_checks"]
@@ -50,6 +50,13 @@ def gen_cases(tier, seed):
         elif kind == "fixed_exhaust":
             o.update(adaptive=False, dt_init=3.0, dt_max=5.0, solve_time=30.0)
             b = 0.8
+        if kind == "normal" and k % 16 >= 8:
+            # dt_init == dt_max with adaptivity on: every refused update must still be retried with the reduced step
+            kind = "equal_dt"
+            o.update(dt_init=0.4, dt_max=0.4, solve_time=12.0, max_solve_retries=25)
+            b = 0.7
+        if nt:
+            o["terminal_psi"] = [0.0, 0.5, "none", [0.3, 0.4], -0.7, 1.0][(k // 2) % 6]
         if scr:
             o.update(include_screening=True, screening_tolerance=1e-2, max_iterations_per_step=300, solve_time=min(o["solve_time"], 1.5))
         if k % 5 == 0:
